@@ -14,7 +14,7 @@ pub fn property() -> Property {
     Property {
         id: "C19",
         level: "fault_enumeration",
-        rule: "The scripted peer serves a prefix of a well-formed response and then PAUSES (a read arriving at the pause is what would block on a real socket and is recorded as blocked_read). Pause points: EVERY wire offset from the end of the head to the end of the frame for 18 fixed small responses (exhaustive; covers after-the-head, after each complete chunk, inside size lines / CRLFs, after every byte of length- and close-delimited bodies), sampled offsets and chunk boundaries for random and > 64 KiB bodies; served prefix as one segment, bytewise or random segments; caller read sizes {1,2,7,4096, larger than available}. Oracle (purely logical, no clock): send() returns Ok with zero blocked reads once the blank line was served; while the caller has received less than the AVAILABLE payload (all served bytes for length/close framing; data of every chunk whose trailing CRLF was served, computed by the reference decoder) no read may block, fail or report end-of-body, and delivered bytes equal the payload prefix; when the whole frame (length/chunked) was served the end-of-body read returns Ok(0) without blocking; a followed redirect whose body the server holds back (5 statuses x 3 framings x 4 amounts served) is followed without a blocked read on the first connection. write_to() and split().2.write_to() are driven at every pause offset of the 18 fixed responses too: the caller's writer must have received all AVAILABLE bytes before write_to first asks the transport for bytes the server has not sent. Non-trivial: available > 0 or pause right after the head; distinct = hash(wire, pause offset, segmentation, read size).",
+        rule: "The scripted peer serves a prefix of a well-formed response and then PAUSES (a read arriving at the pause is what would block on a real socket and is recorded as blocked_read). Pause points: EVERY wire offset from the end of the head to the end of the frame for 18 fixed small responses (exhaustive; covers after-the-head, after each complete chunk, inside size lines / CRLFs, after every byte of length- and close-delimited bodies), sampled offsets and chunk boundaries for random and > 64 KiB bodies; served prefix as one segment, bytewise or random segments; caller read sizes {1,2,7,4096, larger than available}. Oracle (purely logical, no clock): send() returns Ok with zero blocked reads once the blank line was served; while the caller has received less than the AVAILABLE payload (all served bytes for length/close framing; data of every chunk whose trailing CRLF was served, computed by the reference decoder) no read may block, fail or report end-of-body, and delivered bytes equal the payload prefix; when the whole frame (length/chunked) was served the end-of-body read returns Ok(0) without blocking; a followed redirect whose body the server holds back (5 statuses x 3 framings x 4 amounts served) is followed without a blocked read on the first connection; with two requests in flight on real loopback sockets, the one whose response has arrived is delivered while the other one's server is still silent. write_to() and split().2.write_to() are driven at every pause offset of the 18 fixed responses too: the caller's writer must have received all AVAILABLE bytes before write_to first asks the transport for bytes the server has not sent. Non-trivial: available > 0 or pause right after the head; distinct = hash(wire, pause offset, segmentation, read size).",
         assumptions: &["uncompressed bodies only (the statement's quantifier)", "delivering more than the statement's minimum (e.g. the first 64 KiB of an incomplete chunk) is not a violation"],
         min_nontrivial: |t| t.pick(5_000, 100_000),
         gens,
@@ -30,6 +30,7 @@ fn gens(tier: Tier) -> Vec<Gen> {
         Gen { name: "random", count: tier.pick(3_000, 300_000), exhaustive: false, run: run_random },
         Gen { name: "large", count: tier.pick(150, 5_000), exhaustive: false, run: run_large },
         Gen { name: "redirect-then-pause", count: (5 * 3 * 4 * 2) as u64, exhaustive: true, run: run_redirect_pause },
+        Gen { name: "concurrent-heads", count: 6, exhaustive: true, run: run_concurrent_heads },
         Gen { name: "nobody", count: 48, exhaustive: true, run: run_nobody },
         Gen { name: "both-framings", count: 2 * 3 * 14, exhaustive: true, run: run_both_framings },
     ]
@@ -496,4 +497,62 @@ fn run_redirect_pause(ctx: &mut Ctx, _rng: &mut Rng, index: u64) {
         ctx.violation("send-failed", format!("the redirect was not followed to its target; {descr}"));
     }
     ctx.nontrivial(descr.as_bytes());
+}
+
+/// two requests in flight at once (real loopback sockets): while the server of request A has not
+/// sent its head yet, request B - whose complete response has arrived - is delivered; B never
+/// waits for bytes of another connection
+fn run_concurrent_heads(ctx: &mut Ctx, _rng: &mut Rng, index: u64) {
+    use crate::netsrv::{read_head, write_all_ignore, Server};
+    use std::sync::mpsc;
+    use std::time::{Duration, Instant};
+    if crate::framework::miri_mode() {
+        ctx.gray();
+        return;
+    }
+    let same_session = index % 2 == 0;
+    let b_framing = ["Content-Length: 5\r\n\r\nhello", "Transfer-Encoding: chunked\r\n\r\n5\r\nhello\r\n0\r\n\r\n", "\r\nhello"][((index / 2) % 3) as usize];
+    for attempt in 0..3 {
+        let (release_tx, release_rx) = mpsc::channel::<()>();
+        let release_rx = std::sync::Mutex::new(release_rx);
+        // A: takes the request, answers only when released (or after 4 s)
+        let srv_a: Server<()> = Server::spawn(move |mut s: std::net::TcpStream| {
+            let _ = read_head(&mut s);
+            let _ = release_rx.lock().unwrap().recv_timeout(Duration::from_secs(4));
+            write_all_ignore(&mut s, b"HTTP/1.1 200 OK\r\nContent-Length: 1\r\n\r\nA");
+        });
+        let b_resp = format!("HTTP/1.1 200 OK\r\n{b_framing}").into_bytes();
+        let srv_b: Server<()> = Server::spawn(move |mut s: std::net::TcpStream| {
+            let _ = read_head(&mut s);
+            write_all_ignore(&mut s, &b_resp);
+        });
+        let sess = attohttpc::Session::new();
+        let url_a = format!("http://127.0.0.1:{}/a", srv_a.port);
+        let url_b = format!("http://127.0.0.1:{}/b", srv_b.port);
+        let rb_a = if same_session { sess.get(&url_a) } else { attohttpc::get(&url_a) }.read_timeout(Duration::from_secs(10));
+        let rb_b = if same_session { sess.get(&url_b) } else { attohttpc::get(&url_b) }.read_timeout(Duration::from_secs(10));
+        let ta = std::thread::spawn(move || rb_a.send().and_then(|r| r.bytes()).map_err(|e| format!("{e:?}")));
+        // let A get as far as waiting for its head
+        std::thread::sleep(Duration::from_millis(150));
+        let t0 = Instant::now();
+        let rb = rb_b.send().and_then(|r| r.bytes()).map_err(|e| format!("{e:?}"));
+        let elapsed = t0.elapsed();
+        let _ = release_tx.send(());
+        let ra = ta.join().unwrap_or_else(|_| Err("thread panicked".into()));
+        drop((srv_a, srv_b));
+        let descr = format!("request B ({}, {}) completed after {elapsed:?} with {:?} while request A was waiting for its response head (A finally: {:?})", if same_session { "same Session" } else { "independent requests" }, b_framing.split("\r\n").next().unwrap_or("close-delimited"), rb.as_ref().map(|b| String::from_utf8_lossy(b).into_owned()), ra.as_ref().map(|b| b.len()));
+        ctx.max("concurrent_b_elapsed_ms_max", elapsed.as_millis() as u64);
+        if rb.as_deref() != Ok(&b"hello"[..]) {
+            ctx.violation("concurrent:request-failed", descr);
+        } else if elapsed > Duration::from_millis(2_000) {
+            if attempt < 2 {
+                ctx.count("timing_verdicts_rechecked", 1);
+                continue;
+            }
+            ctx.violation("concurrent:send-blocked-behind-another-connection", format!("a response that had arrived completely was only delivered once ANOTHER connection's head arrived; {descr}"));
+        }
+        ctx.count("concurrent_pairs", 1);
+        break;
+    }
+    ctx.nontrivial(format!("cc{index}").as_bytes());
 }
